@@ -225,38 +225,65 @@ def shapes():
     # helper method of the file that is handed (word_info.pos_id, dict_id) (its body is read as if it stood in place).
     body = F.fn_body(t, "get_word_info_subset", rel)
     b = norm_ws(body)
-    pre = "let dict_id = id.dic(); let mut word_info: WordInfoData = self.lexicons[dict_id as usize].get_word_info(id.word(), subset)?.into(); if subset.contains(InfoSubset::POS_ID) { "
+    # the lexicon may be bound to a local first
+    pres = ["let dict_id = id.dic(); let mut word_info: WordInfoData = self.lexicons[dict_id as usize].get_word_info(id.word(), subset)?.into(); if subset.contains(InfoSubset::POS_ID) { ",
+            "let dict_id = id.dic(); let lexicon = &self.lexicons[dict_id as usize]; let mut word_info: WordInfoData = lexicon.get_word_info(id.word(), subset)?.into(); if subset.contains(InfoSubset::POS_ID) { "]
     post = (" } if subset.contains(InfoSubset::SPLIT_A) { Self::update_dict_id(&mut word_info.a_unit_split, dict_id)?; }"
             " if subset.contains(InfoSubset::SPLIT_B) { Self::update_dict_id(&mut word_info.b_unit_split, dict_id)?; }"
             " if subset.contains(InfoSubset::WORD_STRUCTURE) { Self::update_dict_id(&mut word_info.word_structure, dict_id)?; } Ok(word_info.into())")
     inline = ["let pos_id = word_info.pos_id as usize; if dict_id > 0 && pos_id >= self.num_system_pos { word_info.pos_id = (pos_id%s - self.num_system_pos + self.pos_offsets[dict_id as usize]) as u16; }" % c
               for c in (" as usize", "")]
-    ok = SA.alpha_any(body, [pre + x + post for x in inline]) >= 0
+    ok = SA.alpha_any(body, [pre + x + post for pre in pres for x in inline]) >= 0
     if not ok:
-        m = re.search(r"word_info\.pos_id=self\.(\w+)\(word_info\.pos_id,dict_id\);", b)
-        if m and SA.alpha_eq(body, pre + "word_info.pos_id = self.%s(word_info.pos_id, dict_id);" % m.group(1) + post):
-            sig = re.search(r"\bfn\s+%s\s*\(\s*&self\s*,\s*(\w+)\s*:\s*u16\s*,\s*(\w+)\s*:\s*u8\s*,?\s*\)\s*->\s*u16\b" % re.escape(m.group(1)), t)
-            if sig:
-                hb = SA.substitute(F.fn_body(t, m.group(1), rel), {sig.group(1): "RAW_POS", sig.group(2): "DICT_ID"})
+        # a private helper method handed the stored POS id and the dictionary number, in either order
+        m = re.search(r"word_info\.pos_id=self\.(\w+)\((word_info\.pos_id,dict_id|dict_id,word_info\.pos_id)\);", b)
+        if m:
+            args = "word_info.pos_id, dict_id" if m.group(2).startswith("word_info") else "dict_id, word_info.pos_id"
+            call = "word_info.pos_id = self.%s(%s);" % (m.group(1), args)
+            types = (r"u16", r"u8") if m.group(2).startswith("word_info") else (r"u8", r"u16")
+            sig = re.search(r"\bfn\s+%s\s*\(\s*&self\s*,\s*(\w+)\s*:\s*%s\s*,\s*(\w+)\s*:\s*%s\s*,?\s*\)\s*->\s*u16\b" % (re.escape(m.group(1)), types[0], types[1]), t)
+            if sig and SA.alpha_any(body, [pre + call + post for pre in pres]) >= 0:
+                names = (sig.group(1), sig.group(2)) if m.group(2).startswith("word_info") else (sig.group(2), sig.group(1))
+                hb = SA.substitute(F.fn_body(t, m.group(1), rel), {names[0]: "RAW_POS", names[1]: "DICT_ID"})
                 rebased = ["(pos_id%s - self.num_system_pos + self.pos_offsets[DICT_ID as usize]) as u16" % c for c in (" as usize", "")]
                 helper = []
+                # DICT_ID is a u8: `DICT_ID == 0` is the negation of `DICT_ID > 0`; `pos_id < n` of `pos_id >= n`
                 for r_ in rebased:
                     helper.append("let pos_id = RAW_POS as usize; if DICT_ID > 0 && pos_id >= self.num_system_pos { %s } else { RAW_POS }" % r_)
                     helper.append("let pos_id = RAW_POS as usize; if DICT_ID > 0 && pos_id >= self.num_system_pos { return %s; } RAW_POS" % r_)
+                    helper.append("let pos_id = RAW_POS as usize; if DICT_ID == 0 || pos_id < self.num_system_pos { RAW_POS } else { %s }" % r_)
+                    helper.append("let pos_id = RAW_POS as usize; if DICT_ID == 0 || pos_id < self.num_system_pos { return RAW_POS; } %s" % r_)
                 ok = SA.alpha_any(hb, helper) >= 0
     if not ok:
         raise F.FactError("LexiconSet::get_word_info_subset changed shape: %r" % b)
+    # update_dict_id: every reference that is not to the system dictionary (dic() > 0, i.e. != 0 for the u8) is re-stamped with
+    # WordId::checked(dict_id, word()); the others are left alone
     b = norm_ws(F.fn_body(t, "update_dict_id", rel))
-    if not F.same_shape(F.fn_body(t, "update_dict_id", rel), "foridinsplit.iter_mut(){letcur_dict_id=id.dic();ifcur_dict_id>0{*id=WordId::checked(dict_id,id.word())?;}}Ok(())"):
+    stamp = "*id = WordId::checked(dict_id, id.word())?;"
+    if SA.alpha_any(F.fn_body(t, "update_dict_id", rel), [
+            "for id in split.iter_mut() { let cur_dict_id = id.dic(); if cur_dict_id > 0 { %s } } Ok(())" % stamp,
+            "for id in split.iter_mut() { if id.dic() > 0 { %s } } Ok(())" % stamp,
+            "for id in split.iter_mut() { let cur_dict_id = id.dic(); if cur_dict_id == 0 { continue; } %s } Ok(())" % stamp,
+            "for id in split.iter_mut() { if id.dic() == 0 { continue; } %s } Ok(())" % stamp]) < 0:
         raise F.FactError("LexiconSet::update_dict_id changed shape: %r" % b)
     rel = "sudachi/src/analysis/stateful_tokenizer.rs"
     t = F.strip_comments(F.src(rel))
+    # set_mode / set_subset: the split field of the mode (A -> SPLIT_A, B -> SPLIT_B, otherwise nothing), written in place or
+    # through a private function of the file that is exactly that table (`fn f(m: Mode) -> InfoSubset { match m {..} }`)
+    table = "match %s { Mode::A => InfoSubset::SPLIT_A, Mode::B => InfoSubset::SPLIT_B, _ => InfoSubset::empty(), }"
+    helpers = []
+    for hm in re.finditer(r"\bfn\s+(\w+)\s*\(\s*(\w+)\s*:\s*Mode\s*,?\s*\)\s*->\s*InfoSubset\b", t):
+        if SA.alpha_eq(SA.substitute(F.fn_body(t, hm.group(1), rel), {hm.group(2): "MODE_ARG"}), table % "MODE_ARG"):
+            helpers.append(hm.group(1))
+    def mode_fields(arg):
+        return [table % arg] + ["%s(%s)" % (h, arg) for h in helpers] + ["Self::%s(%s)" % (h, arg) for h in helpers]
     b = norm_ws(F.fn_body(t, "set_mode", rel))
-    if not F.same_shape(F.fn_body(t, "set_mode", rel), "self.subset|=matchmode{Mode::A=>InfoSubset::SPLIT_A,Mode::B=>InfoSubset::SPLIT_B,_=>InfoSubset::empty(),};std::mem::replace(&mutself.mode,mode)"):
+    if SA.alpha_any(F.fn_body(t, "set_mode", rel), ["self.subset |= %s; std::mem::replace(&mut self.mode, mode)" % x for x in mode_fields("mode")]) < 0:
         raise F.FactError("StatefulTokenizer::set_mode changed shape: %r" % b)
     b = norm_ws(F.fn_body(t, "set_subset", rel))
-    if not F.same_shape(F.fn_body(t, "set_subset", rel), ("letmode_subset=matchself.mode{Mode::A=>InfoSubset::SPLIT_A,Mode::B=>InfoSubset::SPLIT_B,_=>InfoSubset::empty(),};"
-             "letnew_subset=(subset|mode_subset).normalize();std::mem::replace(&mutself.subset,new_subset|mode_subset)")):
+    if SA.alpha_any(F.fn_body(t, "set_subset", rel), [
+            "let mode_subset = %s; let new_subset = (subset | mode_subset).normalize(); std::mem::replace(&mut self.subset, new_subset | mode_subset)" % x
+            for x in mode_fields("self.mode")]) < 0:
         raise F.FactError("StatefulTokenizer::set_subset changed shape: %r" % b)
     # the glue that hands results over: the list receives a COPY of the tokenizer's subset, the tokenizer keeps its own
     b = norm_ws(F.fn_body(t, "swap_result", rel))
